@@ -245,6 +245,9 @@ def make_fn(geo, pipe, opts, twin=False):
         # ... and the configuration the caller asked for (arguments of the setters), not only what the first manager happened to store
         asked = str(opts.get('flow_type', 'borehole')).upper()
         cs += [m._design.flow_type.name == asked, m2._design.flow_type.name == asked, str(d1['design']['flow_type']).upper() == asked]
+        fl_asked = (str(opts.get('fluid', 'Water')).upper(), float(opts.get('percent', 0.0)), float(opts.get('temperature', 20.0)))
+        cs += [(str(d1['fluid']['fluid_name']).upper(), float(d1['fluid']['concentration_percent']), float(d1['fluid']['temperature'])) == fl_asked,
+               (m2._fluid.fluid_type.name, float(m2._fluid.concentration_percent), float(m2._fluid.temperature)) == fl_asked]
         if 'rot_min' in e.inputs:
             # counterexamples are preferred at angles whose degree -> radian -> degree conversion is inexact in binary64
             e.prefer.append(z3.And(z3.Or(e.inputs['rot_min'] == 30, e.inputs['rot_min'] == -30), z3.Or(e.inputs['rot_max'] == 30, e.inputs['rot_max'] == 7)))
@@ -286,6 +289,14 @@ def make_replay(geo, pipe, opts):
             stored = (m._design.flow_type.name, got['mgr']._design.flow_type.name, str(json.loads(f1.read_text())['design']['flow_type']).upper())
             if any(x != asked for x in stored):
                 info['flow_type'] = dict(asked=asked, first_manager=stored[0], reloaded_manager=stored[1], written=stored[2])
+                return True, info
+            fl_asked = (str(opts.get('fluid', 'Water')).upper(), float(opts.get('percent', 0.0)), float(opts.get('temperature', 20.0)))
+            wf = json.loads(f1.read_text())['fluid']
+            fl_written = (str(wf['fluid_name']).upper(), float(wf['concentration_percent']), float(wf['temperature']))
+            m2 = got['mgr']
+            fl_loaded = (m2._fluid.fluid_type.name, float(m2._fluid.concentration_percent), float(m2._fluid.temperature))
+            if fl_written != fl_asked or fl_loaded != fl_asked:
+                info['fluid'] = dict(asked=fl_asked, written=fl_written, reloaded_manager=fl_loaded)
                 return True, info
             same = f1.read_text() == f2.read_text()
             if same and not bool(state_equal(config_state(m), config_state(got['mgr']))):
@@ -359,8 +370,9 @@ def units(tier, seed):
             opt_list = [dict(), dict(cap=True, cont=True, flow_type='SyStEm', fluid='PropyleneGlycol', percent=25.0, temperature=-2.0)] if tier == 'thorough' else \
                 [dict(cap=bool((gi + pi) % 2), cont=bool(gi % 2), flow_type=['borehole', 'system'][pi % 2],
                       # values that differ from every default of the setters (a default silently substituted on reading must show)
-                      temperature=[20.0, 7.5, 31.0][(gi + pi) % 3], fluid=['Water', 'PropyleneGlycol', 'EthyleneGlycol'][(gi + 2 * pi) % 3],
-                      percent=[0.0, 25.0, 12.5][(gi + 2 * pi) % 3])]
+                      temperature=[20.0, 7.5, 31.0][(gi + pi) % 3],
+                      fluid=['Water', 'PropyleneGlycol', 'EthyleneGlycol', 'MethylAlcohol', 'EthylAlcohol'][(2 * gi + pi) % 5],
+                      percent=[0.0, 25.0, 12.5, 20.0, 15.0][(2 * gi + pi) % 5])]
             for oi, opts in enumerate(opt_list):
                 combos.append((geo, pipe, opts, oi))
     for geo, pipe, opts, oi in combos:
